@@ -265,7 +265,9 @@ type outcome struct {
 	errClass string // oob nonnum conv unhashable kind field
 	hasRead  bool   // the statement's value is specified
 	read     reflect.Value
+	readAlt  reflect.Value // second admitted rendering of the value (byte >= 0x80 of a string)
 	readAny  bool // statement value not fixed by the statement (membership across kinds)
+	note     string // finer class label for the evidence counters
 	// apply performs the mutation on the mirror; obsCap() returns the capacity observed on the
 	// anko side of the slice that received an append (capacity after growth is not specified by Go
 	// and therefore adopted from the observation), or -1.
@@ -347,8 +349,13 @@ func planRead(t target, st *Step) outcome {
 		}
 		o := outcome{hasRead: true, mayErr: ix.float}
 		if t.cls == "str" {
-			// Go: string(s[i]) — the byte converted to a string
-			o.read = reflect.ValueOf(string(rune(t.v.String()[ix.n])))
+			// Go: s[i] is a byte; as a string it is string(rune(b)) (what anko does) or, for b >= 0x80,
+			// arguably the one-byte string: both renderings are admitted
+			b := t.v.String()[ix.n]
+			o.read = reflect.ValueOf(string(rune(b)))
+			if b >= 0x80 {
+				o.readAlt = reflect.ValueOf(string([]byte{b}))
+			}
 		} else {
 			o.read = t.v.Index(int(ix.n))
 		}
@@ -359,16 +366,16 @@ func planRead(t target, st *Step) outcome {
 		case kEither:
 			return outcome{skip: "nil_key_on_typed_map"}
 		case kUnhashable:
-			return outcome{hasRead: true, read: nilIface()}
+			return outcome{hasRead: true, read: nilIface(), note: "map_read:unhashable_key"}
 		case kConvErr:
 			// ill-typed key on a typed map: it cannot be present; nil or an error
-			return outcome{hasRead: true, read: nilIface(), mayErr: true}
+			return outcome{hasRead: true, read: nilIface(), mayErr: true, note: "map_read:ill_typed_key"}
 		}
 		v := t.v.MapIndex(k)
 		if !v.IsValid() {
-			return outcome{hasRead: true, read: nilIface()}
+			return outcome{hasRead: true, read: nilIface(), note: "map_read:missing_key"}
 		}
-		return outcome{hasRead: true, read: v}
+		return outcome{hasRead: true, read: v, note: "map_read:present_key"}
 	}
 	return errOut("kind")
 }
@@ -392,7 +399,12 @@ func planWrite(t target, st *Step) outcome {
 			return outcome{skip: "map_conversion_key_collision"}
 		}
 		o := outcome{mayErr: ix.float || cs == cEither, mutates: true}
+		o.note = "slice_store:in_range"
 		if ix.n == int64(ln) {
+			o.note = "slice_store:at_len_in_place"
+			if ln == cp {
+				o.note = "slice_store:at_len_growing"
+			}
 			tt := t
 			o.dest = &tt
 			o.apply = func(obsCap func() int) {
@@ -525,7 +537,14 @@ func planApp(t target, dst target, st *Step) outcome {
 			elems = []reflect.Value{ev}
 		}
 		d := dst
-		return outcome{mayErr: cs == cEither, mutates: true, dest: &d, known: known, apply: func(obsCap func() int) {
+		note := "append:in_place"
+		if t.v.Len()+len(elems) > t.v.Cap() {
+			note = "append:growing"
+		}
+		if len(elems) == 0 {
+			note = "append:nothing"
+		}
+		return outcome{mayErr: cs == cEither, mutates: true, dest: &d, known: known, note: note, apply: func(obsCap func() int) {
 			dst.v.Set(appendMirror(t.v, elems, obsCap()))
 		}}
 	case "str":
@@ -608,7 +627,11 @@ func planDel(t target, st *Step) outcome {
 		case kConvErr:
 			return errOut("conv")
 		}
-		return outcome{mutates: true, apply: func(func() int) { t.v.SetMapIndex(k, reflect.Value{}) }}
+		note := "map_delete:missing_key"
+		if t.v.MapIndex(k).IsValid() {
+			note = "map_delete:present_key"
+		}
+		return outcome{mutates: true, note: note, apply: func(func() int) { t.v.SetMapIndex(k, reflect.Value{}) }}
 	case "str":
 		// delete("name") removes the variable of that name: not a container operation
 		return outcome{skip: "delete_on_string"}
